@@ -137,7 +137,7 @@ pub fn run(target: &str, data: &[u8]) -> CheckResult {
         "fz_c01" => {
             let mut b = Bytes { d: data, i: 0 };
             let case = program(&mut b);
-            let cfg = c01::Cfg { budget: 400, size_cap9: 7, cli: false };
+            let cfg = c01::Cfg { budget: 200, size_cap9: 7, cli: false };
             c01::check(&c01::Case1(case), &mut st, &cfg, std::path::Path::new("/nonexistent"), std::path::Path::new("/nonexistent"))
         }
         "fz_num" => {
